@@ -29,6 +29,7 @@ var errKVKey = errors.New("invalid encode kv key")
 var errInvalidDBValue = errors.New("invalide db value")
 var ErrBitOverflow = errors.New("bit offset overflowed")
 var errInvalidTTL = errors.New("invalid expire time")
+var errOffsetOutOfRange = errors.New("offset is out of range")
 
 func convertRedisKeyToDBKVKey(key []byte) ([]byte, []byte, error) {
 	table, _, _ := extractTableFromRedisKey(key)
@@ -705,6 +706,10 @@ func (db *RockDB) DelIfEQ(ts int64, rawKey []byte, oldV []byte) (int64, error) {
 }
 
 func (db *RockDB) SetRange(ts int64, rawKey []byte, offset int, value []byte) (int64, error) {
+	if offset < 0 || offset > MaxValueSize {
+		// also keeps len(value)+offset below from overflowing
+		return 0, errOffsetOutOfRange
+	}
 	if len(value) == 0 {
 		// nothing to write: the reply is the current length of the string (as redis does)
 		keyInfo, realV, err := db.getDBKVRealValueAndHeader(ts, rawKey, false)
